@@ -1,0 +1,78 @@
+//go:build verif
+
+package generator
+
+// Contracts for the deductive verifier in /verif (govc).  This file contains comments only;
+// it is compiled only with -tags verif and declares nothing.
+
+// ---- hook calls (C10, C07) ---------------------------------------------------------------------
+
+//@ spec adapt(varIsPtr bool, wantPtr bool) string = cond(varIsPtr == wantPtr, "", cond(varIsPtr, "*", "&"))
+//@ spec argNames(args []model.Var, k int) string = cond(k <= 0, "", argNames(args, k-1) + ", " + args[k-1].Name)
+//@ spec opaque manipCall(m model.Manipulator, src model.Var, dst model.Var, args []model.Var) string =
+//@     cond(m.RetError, "err = ", "") + cond(m.Pkg != "", m.Pkg + ".", "") + m.Name + "(" +
+//@     adapt(dst.Pointer, m.IsDstPtr) + dst.Name + ", " + adapt(src.Pointer, m.IsSrcPtr) + src.Name +
+//@     cond(m.HasAdditionalArgs, argNames(args, len(args)), "") + ")\n" +
+//@     cond(m.RetError, "if err != nil {\nreturn\n}\n", "")
+//@
+//@ func (*Generator).ManipulatorToString(g, m, src, dst, args) (r)
+//@   ensures {C10,C07,C01} r == manipCall(*m, src, dst, args)
+//@   reveal manipCall
+//@   loop 1 invariant sb.String() == entry(sb.String()) + argNames(args, $k)
+//@   loop 1 invariant $k <= len(args)
+
+// ---- assignments with their error guard (C07) ----------------------------------------------------
+
+//@ spec errReturn(f model.Function) string =
+//@     cond(f.DstVarStyle == model.DstVarReturn && f.Dst.Pointer, "if err != nil {\nreturn nil, err\n}\n", "if err != nil {\nreturn\n}\n")
+//@ spec opaque guarded(f model.Function, a model.Assignment) string = a.String() + cond(a.RetError(), errReturn(f), "")
+//@
+//@ func AssignmentToString(f, a) (r)
+//@   requires model.wfAssign(a)
+//@   ensures {C07,C01,C02} r == guarded(*f, a)
+//@   reveal guarded
+
+// ---- function text (C08, C10, C07, C02, C01) --------------------------------------------------------
+
+//@ spec sep(nonEmptyBefore bool) string = cond(nonEmptyBefore, ", ", "")
+//@ spec argsPrefix(args []model.Var, k int, neb bool) string =
+//@     cond(k <= 0, "", argsPrefix(args, k-1, neb) + sep(neb || k > 1) + args[k-1].Name + " " + model.fullType(args[k-1]))
+//@ spec recvText(f model.Function) string = cond(f.Receiver != "", "(" + f.Receiver + " " + model.fullType(f.Src) + ") ", "")
+//@ spec params(f model.Function) string =
+//@     cond(f.DstVarStyle == model.DstVarArg, f.Dst.Name + " *" + f.Dst.Type, "") +
+//@     cond(f.Receiver == "", sep(f.DstVarStyle == model.DstVarArg) + f.Src.Name + " " + model.fullType(f.Src), "") +
+//@     argsPrefix(f.AdditionalArgs, len(f.AdditionalArgs), f.DstVarStyle == model.DstVarArg || f.Receiver == "")
+//@ spec results(f model.Function) string =
+//@     cond(f.DstVarStyle == model.DstVarReturn,
+//@          "(" + f.Dst.Name + " " + model.fullType(f.Dst) + cond(f.RetError, ", err error", "") + ") ",
+//@          cond(f.RetError, "(err error) ", ""))
+//@ spec header(f model.Function) string = "func " + recvText(f) + f.Name + "(" + params(f) + ") " + results(f)
+//@ spec dstInit(f model.Function) string =
+//@     cond(f.DstVarStyle == model.DstVarReturn && f.Dst.Pointer, f.Dst.Name + " = &" + f.Dst.Type + "{}\n", "")
+//@ spec dstAsDeclared(f model.Function) model.Var =
+//@     model.Var{Name: f.Dst.Name, Type: f.Dst.Type, Pointer: f.DstVarStyle == model.DstVarArg || f.Dst.Pointer, External: f.Dst.External}
+//@ spec hookText(m *model.Manipulator, f model.Function) string =
+//@     cond(m != nil, manipCall(*m, f.Src, dstAsDeclared(f), f.AdditionalArgs), "")
+//@ spec assignTexts(f model.Function, k int) string =
+//@     cond(k <= 0, "", assignTexts(f, k-1) + guarded(f, f.Assignments[k-1]))
+//@ spec body(f model.Function) string =
+//@     dstInit(f) + hookText(f.PreProcess, f) + assignTexts(f, len(f.Assignments)) + hookText(f.PostProcess, f)
+//@ spec trailer(f model.Function) string =
+//@     cond(f.RetError || f.DstVarStyle == model.DstVarReturn, "\nreturn\n", "") + "}\n\n"
+//@ spec docLines(cs []string, k int) string = cond(k <= 0, "", docLines(cs, k-1) + cs[k-1] + "\n")
+//@ spec funcText(f model.Function) string =
+//@     docLines(f.Comments, len(f.Comments)) + header(f) + "{\n" + body(f) + trailer(f)
+//@
+//@ func (*Generator).FuncToString(g, f) (r)
+//@   requires model.wfContents(f.Assignments)
+//@   split f.DstVarStyle == model.DstVarArg, f.DstVarStyle == model.DstVarReturn, f.Receiver == "", f.RetError, f.Dst.Pointer, f.PreProcess == nil, f.PostProcess == nil
+//@   ensures {C08,C10,C07,C02,C01,C03,C11} r == funcText(*f)
+//@   loop 1 invariant sb.String() == docLines(f.Comments, $k) && $k <= len(f.Comments)
+//@   loop 2 invariant $k <= len(f.AdditionalArgs)
+//@   loop 2 invariant sb.String() == docLines(f.Comments, len(f.Comments)) + "func " + recvText(*f) + f.Name + "(" + fixedParams(*f) + argsPrefix(f.AdditionalArgs, $k, f.DstVarStyle == model.DstVarArg || f.Receiver == "")
+//@   loop 3 invariant $k <= len(f.Assignments)
+//@   loop 3 invariant {C08,C10,C07,C02,C01,C03,C11} sb.String() == docLines(f.Comments, len(f.Comments)) + header(*f) + "{\n" + dstInit(*f) + hookText(f.PreProcess, *f) + assignTexts(*f, $k)
+//@
+//@ spec fixedParams(f model.Function) string =
+//@     cond(f.DstVarStyle == model.DstVarArg, f.Dst.Name + " *" + f.Dst.Type + cond(f.Receiver == "", ", ", ""), "") +
+//@     cond(f.Receiver == "", f.Src.Name + " " + model.fullType(f.Src), "")
